@@ -1,11 +1,14 @@
 (* Bvm/XExamples.v — concrete programs with closures for the Examples of Props/C03_bvm.v.
    ex_counter and ex_tuple_escape are REAL dumps (harness bc_dump of the sources quoted below, printed by a script);
-   ex_bad_upvalue is hand-made.  `toy` (Bvm/Examples.v) is the arithmetic used to run them. *)
+   ex_bad_upvalue and ex_array_wide_store are hand-made; ex_array is a real dump too.  `toy` (Bvm/Examples.v) is the arithmetic used to run them. *)
 From Coq Require Import List ZArith NArith Bool.
 From Mimium Require Import Heap.Model.
 From Mimium Require Import Bvm.Model Bvm.Verify Bvm.Examples Bvm.XModel Bvm.XVerify.
 Import ListNotations.
 Local Open Scope N_scope.
+
+(* a function without array accesses: no element-width annotation *)
+Definition mkFnX pw np nr code consts jt ss up : fn := mkFn pw np nr code consts jt ss up [].
 
 (* source:
 fn counter(){ let c = 0.0
@@ -17,19 +20,19 @@ fn dsp(){ k() + k() }
 Definition ex_counter : program :=
   mkProg [
     (* _mimium_global *)
-    mkFn 0 0 0
+    mkFnX 0 0 0
       [MoveConst 0 0; Move 1 0; Call 1 0 1; CloseHeapClosure 1; SetGlobal 0 1 1; Return0]
       [1%Z] [] 0 [];
     (* counter *)
-    mkFn 0 0 1
+    mkFnX 0 0 1
       [MoveImmF 0 0%Z; Move 1 0; MoveConst 2 0; MakeHeapClosure 2 2 64; CloseHeapClosure 2; CloneHeap 2; Return 2 1]
       [2%Z] [] 0 [];
     (* lambda_0 *)
-    mkFn 0 0 1
+    mkFnX 0 0 1
       [GetUpValue 0 0 1; MoveImmF 1 4607182418800017408%Z; AddF 0 0 1; SetUpValue 0 0 1; GetUpValue 0 0 1; Return 0 1]
       [] [] 0 [mkUp 1 1 false];
     (* dsp *)
-    mkFn 0 0 1
+    mkFnX 0 0 1
       [GetGlobal 0 0 1; CallIndirect 0 0 1; Move 0 0; GetGlobal 1 0 1; CallIndirect 1 0 1; Move 1 1; AddF 0 0 1; Return 0 1]
       [] [] 0 []]
     1 [] (Some 3) [] [].
@@ -64,23 +67,23 @@ fn dsp(){
 Definition ex_tuple_escape : program :=
   mkProg [
     (* _mimium_global *)
-    mkFn 0 0 0
+    mkFnX 0 0 0
       [Return0]
       [] [] 0 [];
     (* test *)
-    mkFn 1 1 1
+    mkFnX 1 1 1
       [MoveImmF 3 4617315517961601024%Z; Move 1 3; MoveImmF 3 4616189618054758400%Z; Move 2 3; MoveRange 3 1 2; MoveConst 5 0; MakeHeapClosure 5 5 64; Move 6 5; Move 7 6; Move 8 6; CloseHeapClosure 8; CloseHeapClosure 7; CloneHeap 7; Return 7 1]
       [2%Z] [] 0 [];
     (* f *)
-    mkFn 0 0 1
+    mkFnX 0 0 1
       [MoveImmF 0 4613937818241073152%Z; Move 1 0; GetUpValue 2 0 1; GetUpValue 3 1 2; GetUpValue 5 1 2; MoveConst 7 0; MakeHeapClosure 7 7 64; Move 8 7; Move 9 8; CallIndirect 9 0 1; Move 9 9; Move 10 8; CloseHeapClosure 10; Return 9 1]
       [3%Z] [] 0 [mkUp 0 1 false; mkUp 3 2 false];
     (* ff *)
-    mkFn 0 0 1
+    mkFnX 0 0 1
       [GetUpValue 0 0 1; Move 1 0; GetUpValue 2 1 2; Move 4 2; GetUpValue 5 2 2; Move 7 6; GetUpValue 8 3 1; Move 9 8; Move 10 1; Move 11 4; MulF 10 10 11; Move 11 7; SubF 10 10 11; Move 11 9; AddF 10 10 11; Return 10 1]
       [] [] 0 [mkUp 2 1 false; mkUp 3 2 false; mkUp 5 2 false; mkUp 1 1 false];
     (* dsp *)
-    mkFn 0 0 1
+    mkFnX 0 0 1
       [MoveImmF 0 4621256167635550208%Z; MoveConst 1 0; Move 2 1; Move 3 0; Call 2 1 1; Move 3 2; Move 4 3; CallIndirect 4 0 1; Move 4 4; Move 5 3; CloseHeapClosure 5; Return 4 1]
       [1%Z] [] 0 []]
     0 [] (Some 4) [] [].
@@ -88,9 +91,40 @@ Definition ex_tuple_escape : program :=
 
 (* GetUpValue 5 in a function with one upindex *)
 Definition ex_bad_upvalue : program :=
-  mkProg [mkFn 0 0 0 [Return0] [] [] 0 [];
-          mkFn 0 0 1 [MoveImmF 0 0%Z; MoveConst 1 0; MakeHeapClosure 1 1 0; Move 2 1; CallIndirect 2 0 1; Return 2 1] [2%Z] [] 0 [];
-          mkFn 0 0 1 [GetUpValue 0 5 1; Return 0 1] [] [] 0 [mkUp 0 1 false]]
+  mkProg [mkFnX 0 0 0 [Return0] [] [] 0 [];
+          mkFnX 0 0 1 [MoveImmF 0 0%Z; MoveConst 1 0; MakeHeapClosure 1 1 0; Move 2 1; CallIndirect 2 0 1; Return 2 1] [2%Z] [] 0 [];
+          mkFnX 0 0 1 [GetUpValue 0 5 1; Return 0 1] [] [] 0 [mkUp 0 1 false]]
+    0 [] (Some 1) [] [].
+
+(* ---- arrays (a REAL dump: array literals of one-word and two-word elements, indexing, split_head$arity1, len; the last
+        component of every function is the element-width annotation f_ew computed by checks/bvm_part.py) ---- *)
+(* source:
+fn dsp(){
+  let a = [1.0, 2.0, 3.0]
+  let b = [(1.0, 2.0), (3.0, 4.0)]
+  let (h, t) = split_head(a)
+  let (p, q) = b[now]
+  a[now] + len(t) + p + q + h
+}
+*)
+Definition ex_array : program :=
+  mkProg [
+    (* _mimium_global *)
+    mkFn 0 0 0
+      [Return0]
+      [] [] 0 [] [];
+    (* dsp *)
+    mkFn 0 0 1
+      [MoveImmF 0 4607182418800017408%Z; MoveImmF 1 4611686018427387904%Z; MoveImmF 2 4613937818241073152%Z; AllocArray 3 3 1; MoveImmF 4 0%Z; SetArrayElem 3 4 0; MoveImmF 4 4607182418800017408%Z; SetArrayElem 3 4 1; MoveImmF 4 4611686018427387904%Z; SetArrayElem 3 4 2; Move 4 3; MoveImmF 7 4607182418800017408%Z; Move 5 7; MoveImmF 7 4611686018427387904%Z; Move 6 7; MoveImmF 9 4613937818241073152%Z; Move 7 9; MoveImmF 9 4616189618054758400%Z; Move 8 9; AllocArray 9 2 2; MoveImmF 10 0%Z; SetArrayElem 9 10 5; MoveImmF 10 4607182418800017408%Z; SetArrayElem 9 10 7; Move 10 9; Move 11 4; MoveConst 12 0; Move 13 11; CallExtFun 12 1 2; MoveRange 14 12 2; Move 16 10; MoveConst 17 1; CallExtFun 17 0 1; GetArrayElem 16 16 17; MoveRange 18 16 2; Move 20 4; MoveConst 21 1; CallExtFun 21 0 1; GetArrayElem 20 20 21; Move 21 15; MoveConst 22 2; Move 23 21; CallExtFun 22 1 1; AddF 20 20 22; Move 21 18; AddF 20 20 21; Move 21 19; AddF 20 20 21; Move 21 14; AddF 20 20 21; Return 20 1]
+      [0%Z; 1%Z; 2%Z] [] 0 [] [(5, 1); (7, 1); (9, 1); (21, 2); (23, 2); (33, 2); (38, 1)]]
+    0 [ExtArr 11 1; ExtPure 0 0; ExtArr 0 0] (Some 1) [] [].
+(* ext: ['split_head$arity1', '_mimium_getnow', 'len'] *)
+(* real VM: main {"ncls": 0, "nheap": 0, "pos": 0, "rc": 0, "words": []} ; samples [{"ncls": 0, "nheap": 0, "out": ["401c000000000000"], "pos": 0, "rc": 1, "words": []}, {"ncls": 0, "nheap": 0, "out": ["4028000000000000"], "pos": 0, "rc": 1, "words": []}] *)
+
+(* hand-made: a three-word element is stored from register 1 although only registers 0 and 1 have been written *)
+Definition ex_array_wide_store (hint : N) : program :=
+  mkProg [mkFnX 0 0 0 [Return0] [] [] 0 [];
+          mkFn 0 0 1 [AllocArray 0 1 3; MoveImmF 1 0%Z; SetArrayElem 0 1 1; Return 1 1] [] [] 0 [] [(2, hint)]]
     0 [] (Some 1) [] [].
 
 (* the machine after Machine::new and execute_main (instrumented semantics) *)
